@@ -31,11 +31,11 @@ def run(run):
     run.outside = ["n > 5 (kernels), n > 4 (end to end)", "float rounding of accumulated deltas"]
     run.rule = "kernels: one query per post-condition per (n, element); end to end: one query per returned ranking (conjunction over all single-element moves)"
     run.bounds["kernels [S] (n, element)"] = kn
-    run.add_candidates(harness.pmap(bk.search_check, kn))
-    run.add_candidates(harness.pmap(bk.move_check, kn))
-    run.add_candidates(harness.pmap(bk.step_check, [x for x in kn if x[0] >= 1]))
+    run.pmap("bk.search_check", bk.search_check, kn)
+    run.pmap("bk.move_check", bk.move_check, kn)
+    run.pmap("bk.step_check", bk.step_check, [x for x in kn if x[0] >= 1])
     items = sweep.make_items(run, CFGS, ["localopt"], flags=(False,), light=heavy, heavy=heavy)
-    run.add_candidates(harness.pmap(sweep.run_item, items, chunksize=1))
+    run.pmap("sweep.run_item", sweep.run_item, items, chunksize=1)
     run.extra["work_items"] = len(items)
     run.extra["stubs"] = sweep.install()
 
